@@ -1014,6 +1014,69 @@ def ins_cases(ctx, lines, impls, cases):
         reset_extra_live_points_parameters()
 
 
+def bound_shapes(ctx):
+    """Model.in_bounds and FlowProposal.check_prior_bounds for every SHAPE of prior bound — finite, half-infinite on either
+    side, doubly infinite — on points below / at / above each finite end (seeded change C09-d: an 'optimisation' of
+    in_bounds that skips parameters with ANY infinite bound lets points beyond the finite end of [0, inf) into the pool)"""
+    from nessai.model import Model
+    from nessai.livepoint import numpy_array_to_live_points
+    from nessai.proposal.flowproposal import FlowProposal
+    inf = float("inf")
+    shapes = {"finite": [-1.0, 2.0], "lower-only": [0.0, inf], "upper-only": [-inf, 3.0], "unbounded": [-inf, inf]}
+
+    class BM(Model):
+        def __init__(self, bx, by):
+            self.names = ["x", "y"]
+            self.bounds = {"x": list(bx), "y": list(by)}
+
+        def new_point(self, N=1):
+            return numpy_array_to_live_points(np.random.uniform(0.0, 1.0, (N, 2)), self.names)
+
+        def new_point_log_prob(self, x):
+            return np.zeros(x.size)
+
+        def log_prior(self, x):
+            return np.log(self.in_bounds(x), dtype=float)
+
+        def log_likelihood(self, x):
+            return np.zeros(x.size)
+
+    def probes(b):
+        lo, hi = b
+        vals = [0.5, -7.0, 11.0, -1e300, 1e300]
+        for e in (lo, hi):
+            if math.isfinite(e):
+                vals += [e, np.nextafter(e, -inf), np.nextafter(e, inf), e - 1.0, e + 1.0]
+        return vals
+
+    for nx, bx in shapes.items():
+        for ny, by in shapes.items():
+            m = BM(bx, by)
+            pts = [(a, b) for a in probes(bx) for b in probes(by)]
+            arr = numpy_array_to_live_points(np.array(pts, dtype=float), m.names)
+            want = np.array([(bx[0] <= a <= bx[1]) and (by[0] <= b <= by[1]) for a, b in pts])
+            case = dict(layer="bound-shapes", x=nx, y=ny, bounds=dict(x=[repr(v) for v in bx], y=[repr(v) for v in by]))
+            try:
+                got = np.asarray(m.in_bounds(arr), dtype=bool)
+            except Exception as e:  # noqa
+                ctx.oracle_fail("Model.in_bounds:raised", f"{type(e).__name__}: {e}", case)
+                continue
+            if got.shape != want.shape or not np.array_equal(got, want):
+                i = int(np.flatnonzero(got != want)[0]) if got.shape == want.shape else -1
+                ctx.oracle_fail("Model.in_bounds", f"point {pts[i]} reported {'inside' if got[i] else 'outside'} the prior bounds "
+                                f"x in {bx}, y in {by}", dict(case, point=[repr(v) for v in pts[i]]))
+            fp = FlowProposal.__new__(FlowProposal)
+            fp.model = m
+            try:
+                kept, tag = FlowProposal.check_prior_bounds(fp, arr.copy(), np.arange(len(pts)))
+                if sorted(int(t) for t in tag) != [int(i) for i in np.flatnonzero(want)] or len(kept) != int(want.sum()):
+                    ctx.oracle_fail("FlowProposal.check_prior_bounds", f"kept {len(kept)} of {len(pts)} points, {int(want.sum())} lie inside "
+                                    f"the prior bounds x in {bx}, y in {by}", case)
+            except Exception as e:  # noqa
+                ctx.oracle_fail("FlowProposal.check_prior_bounds:raised", f"{type(e).__name__}: {e}", case)
+            ctx.case(("bound-shapes", nx, ny), True, case if (nx, ny) == ("lower-only", "finite") else None, kind="bound-shapes")
+
+
 # ----------------------------------------------------------------------------------------------- radial draws (oracle)
 
 def radial_oracle(ctx):
@@ -1306,6 +1369,7 @@ def correspond(ctx):
         ins_cases(ctx, lines, impls, cases)
         ctx.diff_model(lines, impls, cases)
         radial_oracle(ctx)
+        bound_shapes(ctx)
         real_runs(ctx)
     finally:
         cleanup()
